@@ -133,14 +133,23 @@ def campaign(ctx, res, oracles, n_hist, n_ops, variants=None, loss=0.1, dup=0.15
             if h.tr is not None and deep:
                 # the concrete handler model, call by call, and the whole model (shell + handlers), iteration by iteration
                 h.tr.close()
-                deep_check(ctx, res, h.tr)
+                deep_check(ctx, res, h.tr, honest=prepare is None)
         finally:
             h.close()
     res.extra['shell_iterations_replayed_on_model'] = res.extra.get('shell_iterations_replayed_on_model', 0) + lines_total
     return res
 
 
-def deep_check(ctx, res, tr):
+def deep_check(ctx, res, tr, honest=False):
+    # the assumption under the two-end theorems (Proofs/TwoEnds.lean): the message one end's handler is given is the message the
+    # other end's handler returned.  Counted everywhere; in histories where both ends are the implementation and nothing is
+    # rewritten in flight (`honest`), a protected request that no handler of the other end returned is a disagreement.
+    for k, v in tr.comp.items():
+        key = ('two_end_honest_' if honest else 'two_end_with_crafted_peer_') + k
+        res.extra[key] = res.extra.get(key, 0) + v
+    if honest:
+        for me, name, text in tr.comp_missing[:2]:
+            res.mismatch('compose (%s %s)' % (me, name), 'request given to the handler was not returned by any handler of the other end', text[:200])
     hb = tr.check_handlers(ctx.driver)
     xb = tr.check_whole(ctx.driver)
     res.extra['handler_calls_replayed_on_model'] = res.extra.get('handler_calls_replayed_on_model', 0) + len(tr.hlines)
